@@ -246,3 +246,113 @@ def chain_function(n):
     """n blocks in a chain of ON_TREE arcs: propagate_counts recurses n deep (F20)."""
     arcs = [(i, [(i + 1, 1)]) for i in range(n - 1)]
     return dict(ident=1, name=b"f", file=b"a.c", start=1, nblocks=n, arcs=arcs, lines={0: [1]})
+
+
+def flow_function(rng, ident, nblocks=None, walks=None, tree=False, order="shuffle", first_line=1, file=b"s.c"):
+    """A random CFG with a REAL profile: blocks 0 (entry) .. n-1 (exit, the last block as in formats < 4.8), every
+    block on its own source line; the arc counts are those of `walks` random walks entry -> exit, hence conserving.
+    The arcs of a block are listed in shuffled / descending destination order (clang <= 10 lists them in the order of
+    the terminator's successors).  tree=True marks a spanning tree (with the virtual exit -> entry arc) ON_TREE.
+    Returns (func dict for synth_gcno, counters of the measured arcs in notes-file order, expected) where expected =
+    {"lines": {line: count}, "executed": bool, "branches": {line: [taken per arc in ascending destination order]}}."""
+    n = nblocks or rng.randrange(4, 12)
+    walks = rng.randrange(0, 9) if walks is None else walks
+    succ = {}
+    for b in range(n - 1):
+        k = 1 if b == 0 else rng.choice([1, 1, 2, 2, 3])    # the entry block has one successor, as in compiler output
+        cand = [b + 1] if b == 0 else list(range(b + 1, n))
+        ds = set(rng.sample(cand, min(k, len(cand))))
+        if b > 1 and rng.random() < 0.25:
+            ds.add(rng.randrange(1, b))                     # a loop back (never into the entry block, no self loop)
+        if not any(d > b for d in ds):
+            ds.add(b + 1)
+        succ[b] = sorted(ds)
+    cnt = {(b, d): 0 for b in succ for d in succ[b]}
+    visits = [0] * n
+    for _ in range(walks):
+        b, steps = 0, 0
+        while b != n - 1:
+            visits[b] += 1
+            steps += 1
+            fwd = [d for d in succ[b] if d > b]
+            d = rng.choice(succ[b]) if steps < 60 else rng.choice(fwd)
+            cnt[(b, d)] += 1
+            b = d
+        visits[n - 1] += 1
+    on_tree = set()
+    if tree:
+        comp = list(range(n))
+
+        def find(x):
+            while comp[x] != x:
+                comp[x] = comp[comp[x]]
+                x = comp[x]
+            return x
+        comp[find(n - 1)] = find(0)                         # the virtual exit -> entry arc is on the tree
+        arcs = list(cnt)
+        rng.shuffle(arcs)
+        for (b, d) in arcs:
+            if find(b) != find(d):
+                comp[find(b)] = find(d)
+                on_tree.add((b, d))
+    arcs_out, counters = [], []
+    for b in range(n - 1):
+        ds = list(succ[b])
+        if order == "desc":
+            ds.sort(reverse=True)
+        elif order == "shuffle":
+            rng.shuffle(ds)
+        arcs_out.append((b, [(d, 1 if (b, d) in on_tree else 0) for d in ds]))
+        counters += [cnt[(b, d)] for d in ds if (b, d) not in on_tree]
+    f = dict(ident=ident, name=b"f%d" % ident, file=file, start=first_line, nblocks=n, arcs=arcs_out,
+             lines={b: [first_line + b] for b in range(n)})
+    exp = {"lines": {first_line + b: visits[b] for b in range(n)}, "executed": walks > 0,
+           "branches": {first_line + b: [cnt[(b, d)] > 0 for d in succ[b]] for b in succ if len(succ[b]) >= 2}}
+    return f, counters, exp
+
+
+# ---- record walks (well-formed files) and foreign-function mutations ---------------------------------------
+
+def records(buf):
+    """[(tag, index of the tag word, length)] of a well-formed gcno/gcda (version < 80 gcno, any gcda), by the length words"""
+    le = buf[:4] in (b"oncg", b"adcg")
+    ws = words(buf, le)
+    out, i = [], 3
+    while i + 1 < len(ws) and ws[i] != 0:
+        out.append((ws[i], i, ws[i + 1]))
+        i += 2 + ws[i + 1]
+    return out
+
+
+def function_idents(buf):
+    """identifier words of the FUNCTION records: [(word index, identifier)]"""
+    le = buf[:4] in (b"oncg", b"adcg")
+    ws = words(buf, le)
+    return [(i + 2, ws[i + 2]) for tag, i, ln in records(buf) if tag == 0x01000000 and ln >= 2]
+
+
+def gcno_idents_scan(buf):
+    """identifiers announced by a gcno, by a plain scan for the FUNCTION tag (works for every layout)"""
+    le = buf[:4] == b"oncg"
+    ws = words(buf, le)
+    return {ws[i + 2] for i in range(len(ws) - 2) if ws[i] == 0x01000000}
+
+
+def absent_ident(known, rng=None):
+    for v in (0x7fffff01, 0x12345678, 0xfffffffe, 77777):
+        if v not in known:
+            return v
+
+
+def with_foreign_function(gcda, known):
+    """after the first (function record, counter record) pair insert a copy of both whose identifier the gcno does not
+    have: a function the notes file does not describe, with as many counters as the function before it"""
+    le = gcda[:4] == b"adcg"
+    recs = records(gcda)
+    for k, (tag, i, ln) in enumerate(recs[:-1]):
+        if tag == 0x01000000 and ln >= 2 and recs[k + 1][0] == 0x01a10000:
+            end = recs[k + 1][1] + 2 + recs[k + 1][2]
+            chunk = gcda[4 * i:4 * end]
+            chunk = chunk[:8] + struct.pack("<I" if le else ">I", absent_ident(known)) + chunk[12:]
+            return gcda[:4 * end] + chunk + gcda[4 * end:]
+    return None
